@@ -29,6 +29,9 @@ func BlobGet(bz []byte, ptr interface{})
 func NewCtx(w *World) sdk.Context
 func WorldOf(ctx sdk.Context) *World
 func MapOrder() int
+func Callers() string
+func ObserveValue(name string, v interface{})
+func ObserveBlob(name string, bz []byte)
 
 // SetBlock installs the block height and time (unix seconds) of the context.
 func SetBlock(ctx sdk.Context, height int64, unix int64) sdk.Context {
